@@ -12,7 +12,7 @@ from harness.props import c01
 
 LEVEL = "model_checking"
 # fuzzy expansion has its own property (C19) and a recorded finding there
-NOFUZZY = ["term", "every", "null", "prefix", "wildcard", "termrange", "numrange", "phrase", "and", "or",
+NOFUZZY = ["term", "every", "null", "prefix", "wildcard", "regex", "termrange", "numrange", "phrase", "and", "or",
            "dismax", "andnot", "andmaybe", "require", "not", "const"]
 
 
